@@ -413,6 +413,28 @@ func Generate(r *rand.Rand) map[string]string {
 	}
 	b.WriteString("\treturn s\n}\n\n")
 
+	// assertions whose operand already has an interface type: also a statically satisfied
+	// single-value assertion fails on a nil operand
+	b.WriteString("func tryP(f func()) (r string) {\n\tdefer func() {\n\t\tif recover() != nil {\n\t\t\tr = \"P\"\n\t\t}\n\t}()\n\tf()\n\treturn \"-\"\n}\n\n")
+	for k, it := range ifs {
+		q := it.qual("main")
+		fmt.Fprintf(&b, "func iface2iface%d(x %s) string {\n\ts := \"\"\n", k, q)
+		fmt.Fprintf(&b, "\ts += tryP(func() { _ = x.(%s) })\n", q)
+		b.WriteString("\ts += tryP(func() { _ = x.(interface{}) })\n")
+		fmt.Fprintf(&b, "\ts += tryP(func() { _ = interface{}(x).(%s) })\n", q)
+		for _, e := range it.Embeds {
+			fmt.Fprintf(&b, "\ts += tryP(func() { _ = x.(%s) })\n", e.qual("main"))
+		}
+		fmt.Fprintf(&b, "\t_, ok := x.(%s)\n\ts += lib.Btoa(ok)\n", q)
+		fmt.Fprintf(&b, "\tswitch x.(type) {\n\tcase nil:\n\t\ts += \"nil\"\n\tcase %s:\n\t\ts += \"self\"\n\t}\n", q)
+		b.WriteString("\treturn s\n}\n\n")
+	}
+	b.WriteString("func ifaceToIface(vs []interface{}, names []string) {\n")
+	for k, it := range ifs {
+		q := it.qual("main")
+		fmt.Fprintf(&b, "\t{\n\t\tvar z %s\n\t\temit(\"nil-iface I%d\", iface2iface%d(z))\n\t\tfor i, x := range vs {\n\t\t\tif v, ok := x.(%s); ok {\n\t\t\t\temit(\"iface2iface \"+names[i]+\" I%d\", iface2iface%d(v))\n\t\t\t}\n\t\t}\n\t}\n", q, k, k, q, k, k)
+	}
+	b.WriteString("}\n\n")
 	fmt.Fprintf(&b, "var asserts = []func(interface{}) (string, bool){")
 	for k := range ifs {
 		fmt.Fprintf(&b, "assert%d, ", k)
@@ -465,6 +487,7 @@ func main() {
 		}
 		emit("anon "+names[i], assertAnon(x))
 	}
+	ifaceToIface(vs, names)
 	// the fresh values again after the calls: which receivers were shared, which copied
 	vs2, _ := values()
 	for i := range vs {
